@@ -20,10 +20,10 @@ def mech(tier, seed):
 
 def generators(tier, seed):
     if tier == "quick":
-        return [dict(module="MC_C03", cfg="MC_C03_q2", workers=4),
+        return [dict(module="MC_C03L", cfg="MC_C03L", workers=2), dict(module="MC_C03", cfg="MC_C03_q2", workers=4),
                 dict(module="MC_C03", cfg="MC_C03_q", workers=4, limit=6000),
                 dict(module="MC_C03", cfg="MC_C03_r", workers=4, limit=3000)]         # pseudo-random trees (WorldRnd)
-    return [dict(module="MC_C03", cfg="MC_C03_q", workers=8), dict(module="MC_C03", cfg="MC_C03_rt", workers=8)]
+    return [dict(module="MC_C03L", cfg="MC_C03L", workers=2), dict(module="MC_C03", cfg="MC_C03_q", workers=8), dict(module="MC_C03", cfg="MC_C03_rt", workers=8)]
 
 MANIFEST = dict(
     design_ref='DESIGN.md §5 C03',
